@@ -359,7 +359,7 @@ package ircserver
 //@   ensures revisionkept: i.Config.Revision == old(i.Config.Revision)
 //@   ensures seenkept: i.lastProcessed == old(i.lastProcessed) && (forall x robust.Id :: x in i.sessions && !old(x in i.sessions) ==> x.Id == s.Id.Id)
 //@   ensures msgidkept: reply.msgid == old(reply.msgid)
-//@   modifies *, !robust.Message
+//@   modifies *, !robust.Message, !outputstream.OutputStream, !outputstream.messageBatch, !maptype(map[uint64]*outputstream.messageBatch)
 //@   loopinv seenkept: i.lastProcessed == old(i.lastProcessed) && (forall x robust.Id :: x in i.sessions && !old(x in i.sessions) ==> x.Id == s.Id.Id)
 //@   loopinv msgidkept: reply.msgid == old(reply.msgid)
 //@   loopinv revisionkept: i.Config.Revision == old(i.Config.Revision)
@@ -405,7 +405,7 @@ package ircserver
 //@   ensures prefix: wfPrefix(i)
 //@   ensures seenkept: i.lastProcessed == old(i.lastProcessed) && (forall x robust.Id :: x in i.sessions && !old(x in i.sessions) ==> x.Id == old(msg.Session.Id))
 //@   ensures onlyself: forall x robust.Id :: x in i.sessions && i.sessions[x] != i.sessions[old(msg.Session)] && i.sessions[x].deleted ==> i.sessions[old(msg.Session)].Server || i.sessions[old(msg.Session)].Operator
-//@   modifies *, !robust.Message
+//@   modifies *, !robust.Message, !outputstream.OutputStream, !outputstream.messageBatch, !maptype(map[uint64]*outputstream.messageBatch)
 
 // ---------------------------------------------------------------------------
 // Handlers that need loop invariants (everything else comes from the template)
@@ -476,7 +476,7 @@ package ircserver
 //@   ensures member: wfMember(i)
 //@   ensures reply: replyOK(reply)
 //@   ensures keeps: forall x robust.Id :: old(x in i.sessions) ==> x in i.sessions && i.sessions[x] == old(i.sessions[x])
-//@   modifies *, !robust.Message
+//@   modifies *, !robust.Message, !outputstream.OutputStream, !outputstream.messageBatch, !maptype(map[uint64]*outputstream.messageBatch)
 
 //@ func IRCServer.generateCaptchaURL
 //@   requires i != nil && i.ConfigMu != nil && s != nil && len(s.auth) >= 8
